@@ -49,6 +49,9 @@ impl Ix {
       }
       Ix::All => Sel::Ok((0..d).collect()),
       Ix::M(m) => {
+        // a one-element logical index is the scalar-logical form (x[true] addresses everything, pinned by the
+        // repository's own tests); it is not a mask over the dimension and is not judged here
+        if m.len() == 1 { return Sel::Unjudged; }
         if m.len() != d { return Sel::BadMask; }
         Sel::Ok(m.iter().enumerate().filter(|(_, b)| **b).map(|(i, _)| i).collect())
       }
